@@ -134,14 +134,13 @@ def rule_r2(facts, col, rule_id="C01.R2"):
             e = switch_discr_expr(body, s)
             hit = False
             for x in walk(e):
-                if x.k == "bin" and x.op == "Rem":
+                # the dividend is the size parameter ITSELF (the length of one copy of the ring): a quantity merely derived
+                # from it - e.g. the length of the doubled mapping - admits element sizes that straddle the wrap point
+                if x.k == "bin" and x.op == "Rem" and peel(x.a, through_try=False).k == "param":
                     hit = True
-                if x.k == "call" and (x.q or "").endswith("is_multiple_of"):
+                if x.k == "call" and (x.q or "").endswith("is_multiple_of") and x.args and peel(x.args[0], through_try=False).k == "param":
                     hit = True
             if not hit:
-                continue
-            # involves the size parameter ?
-            if not any(x.k == "param" for x in walk(e)):
                 continue
             edges = switch_edges(body, s)
             blocked = [tgt for tgt, v in edges if not (set(aggbbs) & body.reachable(tgt))]
